@@ -792,6 +792,27 @@ def gen_idle_throttled(seed, mode="loop"):
     return sc
 
 
+def gen_fd_error(seed, mode="loop"):
+    """C03: a registered descriptor enters an error condition (the write end of a pipe whose reader goes away: EPOLLERR, reported
+    for ever whatever the requested events): the owner is told about it like about any readable descriptor and can deregister
+    it; the loop must not spin on it silently"""
+    r = random.Random(seed * 101 + 71)
+    sc = Sc(mode, "descriptor in error condition seed=%d" % seed)
+    driven_skeleton(sc)
+    M = 1
+    sc.mod(M, "errfd", 0, 0)
+    u = 1
+    oneshot = r.random() < 0.3
+    sc.main += [("reg", M), ("start", M), ("fd_open", u, 3, 0), ("fd_reg", M, u, SRC_ONESHOT if oneshot else 0, sc.ud())]
+    sc.cb(M, "evt", "*", [("fd_dereg", -1, u)] if not oneshot else [])
+    sc.meta["max_ufd"] = 3
+    sc.meta["err_fd"] = {u: M}
+    steps = [[] for _ in range(r.randrange(1, 3))] + [[("fd_hup", u)]] + [[], [], [], []]
+    driven_finish(sc, steps, rng=r)
+    finalize_main(sc)
+    return sc
+
+
 def gen_tick_in_flush(seed, mode="loop"):
     """C20: m_ctx_set_tick() called by a handler that the final flush of a loop run invokes (loop-stopped notification) while a
     tick is active"""
